@@ -15,7 +15,7 @@ RACK = [("", OK), ("x", OK), ("Water µ", OK), (T32, OK), (T33, REJ), ("a;b", RE
 TEXT = [("", OK), ("x", OK), ("Water µ", OK), (T32, OK), (T33, FREE), ("a;b", REJ), (";", REJ)]
 VOL50 = [(0, OK), (0.005, OK), (12.345, OK), (50, OK), (math.nextafter(50, INF), REJ), (-1, REJ), (NAN, REJ), (INF, REJ), ("12", FREE), (7158279, REJ), (2.675, OK)]
 POS = [(1, OK), (7, OK), (96, OK), (0, FREE), (-1, REJ), (1.5, REJ), ("3", REJ), ({"$none": 1}, REJ)]
-TIP = [({"$tip": "Any"}, OK), (3, OK), ({"$tip": "T8"}, OK), ([1, 2], OK), ([{"$tip": "T2"}, 2], OK), (0, REJ), (9, REJ), ([1, {"$tip": "Any"}], REJ)]
+TIP = [({"$tip": "Any"}, OK), (3, OK), ({"$tip": "T8"}, OK), ([1, 2], OK), ([{"$tip": "T2"}, 2], OK), ({"$iter": [1, {"$tip": "T3"}]}, OK), ({"$tuple": [8, 1]}, OK), (0, REJ), (9, REJ), ([1, {"$tip": "Any"}], REJ), ({"$iter": [1, 0]}, REJ)]
 # the status of an exclusion list depends on the destination range and is decided in one_r
 EXCL = [({"$none": 1}, OK), ([], OK), ([3], OK), ([1, 12], OK), ([5, 3], OK), ([3, 3], FREE), ([0], OK), ([13], OK), ([3, 20], OK)]
 DIRECTION = [("left_to_right", OK), ("right_to_left", OK), ("up", REJ), ("", REJ)]
@@ -76,6 +76,8 @@ def tip_mask(t):
     if t == {"$tip": "Any"}:
         return None
     m = 0
+    if isinstance(t, dict) and ("$iter" in t or "$tuple" in t):
+        t = t.get("$iter") or t.get("$tuple")
     for x in t if isinstance(t, list) else [t]:
         n = x if isinstance(x, int) else int(x["$tip"][1:])
         m |= 1 << (n - 1)
